@@ -32,6 +32,8 @@ let parse_op (t : string) : op =
   | 'R', [h; n] -> OReallocate (ni h, ni n)
   | 'P', [h; v] -> OPushBack (ni h, zi v)
   | 'D', [h] -> ODestroy (ni h)
+  | 'X', [h; k; v] -> OWrite (ni h, ni k, zi v)
+  | 'V', [h; n] -> OReserve (ni h, ni n)
   | _ -> failwith ("bad op " ^ t)
 
 (* driver-level glue: drop shadowed bindings of an association list (identity for Model.get) *)
@@ -125,11 +127,11 @@ let alphabet nh (sizes : int list) : aop list =
   List.iter (fun kind ->
     for h = 0 to nh - 1 do
       match kind with
-      | 'B' | 'A' | 'R' -> List.iter (fun n -> add { kind; h; arg = n }) sizes
+      | 'B' | 'A' | 'R' | 'V' -> List.iter (fun n -> add { kind; h; arg = n }) sizes
       | 'W' | 'N' -> for s = 0 to nh - 1 do if s <> h then add { kind; h; arg = s } done
       | 'L' | 'C' -> for s = 0 to nh - 1 do add { kind; h; arg = s } done
       | _ -> add { kind; h; arg = -1 }
-    done) ['B'; 'W'; 'N'; 'L'; 'C'; 'A'; 'R'; 'P'; 'D'];
+    done) ['B'; 'W'; 'N'; 'L'; 'C'; 'A'; 'R'; 'P'; 'D'; 'X'; 'V'];
   List.rev !l
 let op_of (a : aop) (k : int) : op =
   match a.kind with
@@ -138,6 +140,8 @@ let op_of (a : aop) (k : int) : op =
   | 'L' -> OLogcopy (ni a.h, ni a.arg) | 'C' -> OCopy (ni a.h, ni a.arg)
   | 'A' -> OAllocate (ni a.h, ni a.arg) | 'R' -> OReallocate (ni a.h, ni a.arg)
   | 'P' -> OPushBack (ni a.h, zi (100 * (k + 1) + 7))
+  | 'X' -> OWrite (ni a.h, ni (k mod 2), zi (100 * (k + 1) + 3 + 16 * (k mod 5)))
+  | 'V' -> OReserve (ni a.h, ni a.arg)
   | _ -> ODestroy (ni a.h)
 (* handles are named in order of first use *)
 let used_after mx (a : aop) : int option =
@@ -149,7 +153,7 @@ let used_after mx (a : aop) : int option =
 let aop_of_tok (t : string) : aop =
   let args = List.map int_of_string (String.split_on_char ',' (String.sub t 1 (String.length t - 1))) in
   match t.[0], args with
-  | ('B' | 'P'), h :: rest -> { kind = t.[0]; h; arg = (match rest with n :: _ when t.[0] = 'B' -> n | _ -> -1) }
+  | ('B' | 'P' | 'X'), h :: rest -> { kind = t.[0]; h; arg = (match rest with n :: _ when t.[0] = 'B' -> n | _ -> -1) }
   | 'D', [h] -> { kind = 'D'; h; arg = -1 }
   | k, [h; a] -> { kind = k; h; arg = a }
   | _ -> failwith ("bad op " ^ t)
